@@ -688,7 +688,6 @@ class Tr:
             elif a.t == "bool" and b.t == "bool":
                 c = f"(Bool.eqb {a.s} {b.s})"
             elif "rawpart" in (a.t, b.t) or {a.t, b.t} <= {"str", "Z", "pystr", "pyint"}:
-                # (a Z operand was already read through asint above only if it was a pyint; use the values themselves)
                 nm = self.fresh("eq")
                 self.push(pre, env, "bind", nm, f"(rawpart_eq {self.coerce(a, 'rawpart').s} {self.coerce(b, 'rawpart').s})")
                 c = nm
